@@ -28,7 +28,7 @@ CM = 'xdoctest.checker._check_match'
 
 
 def run(ctx):
-    for fn in (r1_only_under_flag, r2_exact_without_marker, r3_bounds_reach_scan, r4_split_pattern, r5_verdict_sources):
+    for fn in (r1_only_under_flag, r2_exact_without_marker, r3_bounds_reach_scan, r4_split_pattern, r5_verdict_sources, r6_flag_read_is_current):
         ctx.rep.rule(fn, ctx)
 
 
@@ -199,6 +199,13 @@ def r3_bounds_reach_scan(ctx):
         rep.ob('C06.R3', ctx.loc(f, c), 'bounds comparison dominates %s' % ctx.src(c), ok,
                'the scan only runs when the anchored ends do not cross; crossing ends return False' if ok else
                'the scan can run although the anchored prefix and suffix overlap (as in want "aa...aa", got "aaa")', anchor=EM)
+
+
+def r6_flag_read_is_current(ctx):
+    """whether '...' is special is decided by the CURRENT value of the flag: reading a key of the run state looks at the live overlay / persistent dictionaries (same clause as C04.R4)"""
+    from . import c04
+    from .common import run_as
+    run_as(ctx, c04.r4_lookup_order, 'C04.R4', 'C06.R6')
 
 
 def r5_verdict_sources(ctx):
